@@ -584,20 +584,21 @@ class ESME:
                 header: PduHeader
                 pdu, header = await self._get_pdu()
                 self._data_received.set()  # Inform connection keeper that data was received
-                pdu_handler: Callable[[bytes, PduHeader], Awaitable[Optional[SmppMessage]]]
+                smpp_message: Optional[SmppMessage]
                 if header.smpp_command in COMMAND_RESPONSE_MAP:
-                    pdu_handler = self._handle_request
+                    smpp_message = await self._handle_pdu(pdu, header)
                 else:
-                    pdu_handler = self._handle_response
-                smpp_message: Optional[SmppMessage] = await pdu_handler(pdu, header)
+                    # A response that has been read is handled to the end, also when the session is
+                    # torn down in the meantime: the correlator may already have matched it with its
+                    # request, which would otherwise be lost without a trace. Nothing in the handling
+                    # of a response waits for the session
+                    handling: Task = asyncio.ensure_future(self._handle_pdu(pdu, header))
+                    try:
+                        smpp_message = await asyncio.shield(handling)
+                    except CancelledError:
+                        await handling
+                        raise
 
-                self._logger.debug('Calling user hook', hook_method='received')
-                if smpp_message is not _SUBMIT_SM_SEGMENT:
-                    await self.hook.received(smpp_message, pdu, self.client_id)
-                else:
-                    # This is a segment of a multi-part message, just send a PDU for logging
-                    await self.hook.received(None, pdu, self.client_id)
- 
                 if not smpp_message:
                     continue  # An error occured
 
@@ -618,6 +619,35 @@ class ESME:
         except CancelledError:
             self._logger.debug('Receiver cancelled')
             raise
+
+    async def _handle_pdu(self, pdu: bytes, header: PduHeader) -> Optional[SmppMessage]:
+        '''
+        Handles a PDU received from SMSC and hands it over to the user's hook
+
+        Parameters:
+            pdu: PDU in bytes that have been read from network
+            header: PduHeader instance containing data parsed from PDU header
+        '''
+        pdu_handler: Callable[[bytes, PduHeader], Awaitable[Optional[SmppMessage]]]
+        if header.smpp_command in COMMAND_RESPONSE_MAP:
+            pdu_handler = self._handle_request
+        else:
+            pdu_handler = self._handle_response
+        smpp_message: Optional[SmppMessage]
+        try:
+            smpp_message = await pdu_handler(pdu, header)
+        except CancelledError:
+            # The PDU was read: user application gets it even if its handling was interrupted
+            await self.hook.received(None, pdu, self.client_id)
+            raise
+
+        self._logger.debug('Calling user hook', hook_method='received')
+        if smpp_message is not _SUBMIT_SM_SEGMENT:
+            await self.hook.received(smpp_message, pdu, self.client_id)
+        else:
+            # This is a segment of a multi-part message, just send a PDU for logging
+            await self.hook.received(None, pdu, self.client_id)
+        return smpp_message
 
     async def _handle_response(self, pdu: bytes, header: PduHeader) -> Optional[SmppMessage]:
         '''
@@ -799,7 +829,7 @@ class ESME:
                 await self._send_data(
                     GenericNack(header.sequence_num, SmppCommandStatus.ESME_RINVCMDID)
                 )
-            except (Exception, CancelledError):
+            except Exception:  # pylint: disable=broad-except
                 # The PDU was read: user application gets it even if it could not be answered
                 await self.hook.received(None, pdu, self.client_id)
                 raise
@@ -825,7 +855,7 @@ class ESME:
                 await self._send_data(
                     GenericNack(header.sequence_num, SmppCommandStatus.ESME_RSYSERR)
                 )
-            except (Exception, CancelledError):
+            except Exception:  # pylint: disable=broad-except
                 # The PDU was read: user application gets it even if it could not be answered
                 await self.hook.received(None, pdu, self.client_id)
                 raise
